@@ -33,18 +33,28 @@
 (*         scheduled; one it lets through runs cb as a task.  kw: the communicator passes sender and  *)
 (*         subject by keyword (kiwipy.LocalCommunicator) or by position (RmqCommunicator) - which     *)
 (*         makes no difference                                                                        *)
-(*   ACT   A = CancellableAction(fn), histories of run()/cancel() of length <= MaxOps              *)
+(*   ACT   A = CancellableAction(fn), histories of run()/cancel() of length <= MaxOps; wd: the      *)
+(*         function withdraws the request it is carrying out - it cancels the very action that is   *)
+(*         executing it (Process.play() called by a hook of the transition a pause action performs) *)
+(*         and then returns / raises                                                                 *)
+(*                                                                                                 *)
+(* Two event loops: "target" is the loop the adapters are told to schedule on (the process loop,   *)
+(* the only one that is ever run: `ready`), "caller" is the current event loop of whoever calls    *)
+(* the adapter (the communicator thread has a loop of its own: `foreign`).  cl: the adapter is     *)
+(* called while the caller's current loop is NOT the target loop.  Every loop future records the   *)
+(* loop it is bound to (lp) - its done-callbacks are handed to THAT loop.                          *)
 (***************************************************************************************************)
 EXTENDS Naturals, Sequences, FiniteSets, TLC
 
 CONSTANTS
-  Scenarios,  \* <<[fam, kind, d, co]>>; co: the consumer may cancel the adapter's output future before it resolves
+  Scenarios,  \* <<[fam, kind, d, co, flt, kw, cl, wd]>>; co: the consumer may cancel the adapter's output future before it
+              \* resolves; cl: the caller's current event loop is not the target loop; wd: the action's function withdraws the action
   Fixes,      \* repair identifiers the implementation under test contains
   Listed,     \* deviation identifiers of listed known findings (a behaviour through one of them is excused)
   MaxOps      \* ACT: length of the run/cancel history
 
-VARIABLES sc, out, futs, ready, tasks, errs, klog, calls, notes, hist, dev, outc
-vars == <<sc, out, futs, ready, tasks, errs, klog, calls, notes, hist, dev, outc>>
+VARIABLES sc, out, futs, ready, foreign, tasks, errs, klog, calls, notes, hist, dev, outc
+vars == <<sc, out, futs, ready, foreign, tasks, errs, klog, calls, notes, hist, dev, outc>>
 
 (* ---- values ----------------------------------------------------------------------------------- *)
 NoVal == [t |-> "none", n |-> 0]
@@ -56,13 +66,19 @@ ISEP    == 91      \* plumpy.futures.InvalidStateError (CancellableAction.run re
 RetVal  == 7       \* what a "ret" coroutine / callback / action function returns
 RaiseEx == 8       \* what a "raise" coroutine / callback / action function raises
 
-NewFut(kind, role) == [kind |-> kind, role |-> role, st |-> "pending", val |-> NoVal, cbs |-> <<>>]
+\* lp: the event loop an asyncio future is bound to ("target" | "caller"); kiwi futures belong to no loop ("-")
+NewFutOn(kind, role, lp) == [kind |-> kind, role |-> role, lp |-> lp, st |-> "pending", val |-> NoVal, cbs |-> <<>>]
+NewFut(kind, role) == NewFutOn(kind, role, IF kind = "loop" THEN "target" ELSE "-")
+\* asyncio.Future() / CancellableAction(fn) without a loop argument: events.get_event_loop() = the CALLER's current loop
+CurrentLoop(cl) == IF cl THEN "caller" ELSE "target"
 Cb(op, a, b)  == [op |-> op, a |-> a, b |-> b]
 Hnd(cb, src)  == [op |-> cb.op, a |-> cb.a, b |-> cb.b, src |-> src]
 Ok(s)         == [s |-> s, exc |-> 0]
 Raise(s, e)   == [s |-> s, exc |-> e]
 Dev(s, d)     == [s EXCEPT !.dev = @ \cup {d}]
 Pending(s, i) == s.f[i].st = "pending"
+\* loop.call_soon(...) on the loop `lp`: the target loop's queue is `ready`, the caller's own loop's queue is `foreign`
+Sched(s, lp, hs) == IF lp = "caller" THEN [s EXCEPT !.foreign = @ \o hs] ELSE [s EXCEPT !.ready = @ \o hs]
 
 RECURSIVE Resolve(_, _, _, _), FireKiwi(_, _, _), RunCb(_, _, _), AddCb(_, _, _), SetResult(_, _, _),
           SetException(_, _, _), Cancel(_, _), Unwrap(_, _, _), P2kOnDone(_, _, _), PlumToKiwi(_, _),
@@ -76,7 +92,7 @@ Resolve(s, i, st, val) ==
   LET fu == s.f[i]
       s1 == [s EXCEPT !.f[i].st = st, !.f[i].val = val, !.f[i].cbs = <<>>]
   IN IF fu.kind = "loop"
-     THEN [s1 EXCEPT !.ready = @ \o MapHnd(fu.cbs, i)]      \* asyncio: loop.call_soon(cb, fut) for each
+     THEN Sched(s1, fu.lp, MapHnd(fu.cbs, i))               \* asyncio: self._loop.call_soon(cb, fut) for each
      ELSE FireKiwi(s1, fu.cbs, i)                            \* concurrent.futures: _invoke_callbacks, here and now
 
 \* concurrent.futures.Future._invoke_callbacks: `except Exception: LOGGER.exception(...)`
@@ -98,7 +114,7 @@ CapturedSetResult(s, i, val) == LET r == SetResult(s, i, val) IN IF r.exc = 0 TH
 \* fut.add_done_callback(cb)
 AddCb(s, i, cb) ==
   IF Pending(s, i) THEN [s EXCEPT !.f[i].cbs = Append(@, cb)]
-  ELSE IF s.f[i].kind = "loop" THEN [s EXCEPT !.ready = Append(@, Hnd(cb, i))]
+  ELSE IF s.f[i].kind = "loop" THEN Sched(s, s.f[i].lp, <<Hnd(cb, i)>>)
   ELSE LET r == RunCb(s, cb, i) IN IF r.exc # 0 THEN [r.s EXCEPT !.klog = Append(@, r.exc)] ELSE r.s
 
 RunCb(s, cb, src) ==
@@ -205,10 +221,12 @@ TaskResume(s, t, src) ==
   IF s.tasks[t].fam = "ct" THEN Deliver(s, t, s.f[src].st, s.f[src].val) ELSE RpcLoop(s, t, src)
 
 \* futures.py create_task: future = loop.create_future(); run_coroutine_threadsafe(run_task(), loop); return future
+\* (loop.create_future(): bound to the loop the coroutine is scheduled on, whatever the caller's current loop is;
+\*  run_coroutine_threadsafe: loop.call_soon_threadsafe(callback) on that same loop)
 CreateTask(s, kind, src) ==
   LET F == Len(s.f) + 1
       t == Len(s.tasks) + 1
-  IN [s |-> [s EXCEPT !.f = Append(@, NewFut("loop", "task_future")), !.tasks = Append(@, NewTask("ct", kind, src, F)),
+  IN [s |-> [s EXCEPT !.f = Append(@, NewFutOn("loop", "task_future", "target")), !.tasks = Append(@, NewTask("ct", kind, src, F)),
                       !.ready = Append(@, H0("thunk", t))], id |-> F]
 \* processes.py _schedule_rpc: kiwi_future = kiwipy.Future(); run_coroutine_threadsafe(run_callback(), self.loop)
 ScheduleRpc(s, kind, src) ==
@@ -228,15 +246,22 @@ Handle(s0, h) ==
     [] h.op = "tcancel" -> s0
 
 (* ---- futures.py: CancellableAction ------------------------------------------------------------- *)
-ActRun(s, a, kind) ==
+\* wd: user code the function calls withdraws the request (self.cancel()) before the function returns / raises
+ActRun(s, a, kind, wd) ==
   IF ~Pending(s, a) THEN [s |-> s, ret |-> "ISEP"]                     \* if self.done(): raise InvalidStateError
-  ELSE LET s1 == [s EXCEPT !.calls = @ + 1]                            \* self._action(*args, **kwargs)
-           r  == IF kind = "ret" THEN CapturedSetResult(s1, a, V(RetVal)) ELSE Capture(s1, a, RaiseEx)
+  ELSE LET s1 == [s EXCEPT !.calls = @ + 1]                            \* with capture_exceptions(self): result = self._action(*args, **kwargs)
+           s2 == IF wd THEN Cancel(s1, a) ELSE s1                      \*    ... in which the action is cancelled
+           r  == IF kind = "ret"
+                 THEN IF s2.f[a].st = "cancelled" THEN Ok(s2)          \* if not self.cancelled():
+                      ELSE CapturedSetResult(s2, a, V(RetVal))         \*     self.set_result(result)
+                 ELSE IF "F20e" \in Fixes /\ ~Pending(s2, a) THEN Ok(s2)   \* repaired: the outcome (the cancellation) stands
+                 ELSE LET c == Capture(s2, a, RaiseEx)                 \* as written: capture_exceptions: self.set_exception(e), which
+                      IN IF c.exc # 0 THEN Raise(Dev(c.s, "D20e"), c.exc) ELSE c     \* raises on a cancelled action, out of run()
        IN [s |-> r.s, ret |-> IF r.exc = 0 THEN "ok" ELSE "ISE"]
 ActCancel(s, a) == [s |-> Cancel(s, a), ret |-> IF Pending(s, a) THEN "True" ELSE "False"]
 
 (* ---- scenarios -------------------------------------------------------------------------------- *)
-E0 == [f |-> <<>>, ready |-> <<>>, tasks |-> <<>>, errs |-> <<>>, klog |-> <<>>, calls |-> 0, notes |-> 0, dev |-> {}]
+E0 == [f |-> <<>>, ready |-> <<>>, foreign |-> <<>>, tasks |-> <<>>, errs |-> <<>>, klog |-> <<>>, calls |-> 0, notes |-> 0, dev |-> {}]
 Chain(kind, d) == [E0 EXCEPT !.f = [i \in 1..d |-> NewFut(kind, "source")]]
 Head1(scn) == IF scn.d > 0 THEN 1 ELSE 0
 
@@ -252,16 +277,17 @@ Build(scn) ==
     [] scn.fam = "BCF"  -> IF scn.flt
                            THEN [s |-> [E0 EXCEPT !.f = <<[NewFut("kiwi", "out") EXCEPT !.st = "result", !.val = NoVal]>>], id |-> 1]
                            ELSE LET c == CreateTask(E0, scn.kind, 0) IN PlumToKiwi(c.s, c.id)
-    [] scn.fam = "ACT"  -> [s |-> [E0 EXCEPT !.f = <<[NewFut("loop", "action") EXCEPT !.cbs = <<Cb("obs", 0, 0)>>]>>], id |-> 1]
+    \* CancellableAction.__init__: super().__init__() - no loop argument: the current loop of whoever creates the action
+    [] scn.fam = "ACT"  -> [s |-> [E0 EXCEPT !.f = <<[NewFutOn("loop", "action", CurrentLoop(scn.cl)) EXCEPT !.cbs = <<Cb("obs", 0, 0)>>]>>], id |-> 1]
 
-St == [f |-> futs, ready |-> ready, tasks |-> tasks, errs |-> errs, klog |-> klog, calls |-> calls, notes |-> notes, dev |-> dev]
-Commit(s) == /\ futs' = s.f /\ ready' = s.ready /\ tasks' = s.tasks /\ errs' = s.errs /\ klog' = s.klog
+St == [f |-> futs, ready |-> ready, foreign |-> foreign, tasks |-> tasks, errs |-> errs, klog |-> klog, calls |-> calls, notes |-> notes, dev |-> dev]
+Commit(s) == /\ futs' = s.f /\ ready' = s.ready /\ foreign' = s.foreign /\ tasks' = s.tasks /\ errs' = s.errs /\ klog' = s.klog
              /\ calls' = s.calls /\ notes' = s.notes /\ dev' = s.dev
 
 Init == \E j \in 1..Len(Scenarios) :
           LET b == Build(Scenarios[j]) IN
             /\ sc = Scenarios[j] /\ out = b.id
-            /\ futs = b.s.f /\ ready = b.s.ready /\ tasks = b.s.tasks /\ errs = <<>> /\ klog = <<>>
+            /\ futs = b.s.f /\ ready = b.s.ready /\ foreign = b.s.foreign /\ tasks = b.s.tasks /\ errs = <<>> /\ klog = <<>>
             /\ calls = 0 /\ notes = 0 /\ hist = <<>> /\ dev = {} /\ outc = FALSE
 
 (* ---- environment ------------------------------------------------------------------------------ *)
@@ -279,7 +305,7 @@ EnvCancel(i) == Src(i) /\ Env(Resolve(St, i, "cancelled", NoVal))
 EnvCancelOut == /\ sc.co /\ ~outc /\ futs[out].st = "pending"
                 /\ Commit(Cancel(St, out)) /\ outc' = TRUE /\ UNCHANGED <<sc, out, hist>>
 EnvRun       == /\ sc.fam = "ACT" /\ Len(hist) < MaxOps
-                /\ LET r == ActRun(St, out, sc.kind) IN Commit(r.s) /\ hist' = Append(hist, [op |-> "run", ret |-> r.ret])
+                /\ LET r == ActRun(St, out, sc.kind, sc.wd) IN Commit(r.s) /\ hist' = Append(hist, [op |-> "run", ret |-> r.ret])
                 /\ UNCHANGED <<sc, out, outc>>
 EnvCancelAct == /\ sc.fam = "ACT" /\ Len(hist) < MaxOps
                 /\ LET r == ActCancel(St, out) IN Commit(r.s) /\ hist' = Append(hist, [op |-> "cancel", ret |-> r.ret])
@@ -322,13 +348,20 @@ ExactlyOnce == ~Excused => /\ errs = <<>> /\ klog = <<>>
                            /\ \A t \in 1..Len(tasks) : tasks[t].st # "exception"
                            /\ notes <= 1
                            /\ calls <= 1
+\* whatever the caller's current event loop is, everything happens on the loop the adapter was told to use: every loop future
+\* the adapters hand out or create is bound to it and nothing is ever scheduled on the caller's own loop
+\* (ACT has no loop argument: an action belongs to the current loop of whoever creates it)
+OnTargetLoop == sc.fam # "ACT" => /\ foreign = <<>>
+                                  /\ \A i \in 1..Len(futs) : futs[i].kind = "loop" => futs[i].lp = "target"
 \* a filtered broadcast never reaches the callback and schedules nothing
 FilteredIsSilent == (sc.fam = "BCF" /\ sc.flt) => (calls = 0 /\ tasks = <<>> /\ ready = <<>>)
 \* an outcome, once there, never changes
 Stable == [][\A i \in 1..Len(futs) : futs[i].st # "pending" => (futs'[i].st = futs[i].st /\ futs'[i].val = futs[i].val)]_vars
 
 \* a cancellable action runs its function at most once, reports the outcome through itself, refuses to run again or after cancel
-FnOutcome == IF sc.kind = "ret" THEN [st |-> "result", val |-> V(RetVal)] ELSE [st |-> "exception", val |-> X(RaiseEx)]
+\* (a function that withdrew the request: the outcome of the run is the cancellation, whatever the function then returns or raises)
+FnOutcome == IF sc.wd THEN [st |-> "cancelled", val |-> NoVal]
+             ELSE IF sc.kind = "ret" THEN [st |-> "result", val |-> V(RetVal)] ELSE [st |-> "exception", val |-> X(RaiseEx)]
 ActionOnce ==
   (sc.fam = "ACT" /\ ~Excused) =>
     /\ calls <= 1
